@@ -29,7 +29,8 @@ def gaf_line(k, r, pad=0):
     if pad:
         opt.append("zz:Z:" + "p" * pad)
     path = "".join(o + n for o, n in r["walk"])
-    return "\t".join([f"r{k}", str(L + 3), "2", str(L + 2), "+", path, str(plen), str(r["ps"]), str(r["pe"]), str(L), str(L), str((k * 13) % 61)] + opt)
+    name = f"r{k}" if pad != 61 else f"r\u00e9ad\u00b5{k}"       # pad 61 marks the file with non-ASCII read names
+    return "\t".join([name, str(L + 3), "2", str(L + 2), "+-"[(k // 2) % 2], path, str(plen), str(r["ps"]), str(r["pe"]), str(L), str(L), str((k * 13) % 61)] + opt)
 
 
 def line_starts(path, bgzf):
@@ -154,7 +155,7 @@ def run_mode(ctx, mode):
         big = ri % 10 == 0 if ctx.thorough else ri in (0, 1)    # output beyond one 64 KiB BGZF block
         if big and not ctx.thorough:
             recs = recs + [rnd.choice(POOL) for _ in range(30)]
-        jobs.append((f"r{ri}", recs, mode, rnd.choice(["plain", "bgzf"]), True if big else rnd.random() < 0.5, rnd.random() < 0.3, 4000 if big else rnd.choice([0, 0, 60]), 60000 if big else 200))
+        jobs.append((f"r{ri}", recs, mode, rnd.choice(["plain", "bgzf"]), True if big else rnd.random() < 0.5, rnd.random() < 0.3, 4000 if big else rnd.choice([0, 0, 60, 61]), 60000 if big else 200))
     # the three-sentence special cases of C10: every alignment touches a reference node / none does
     allref = [p for p in POOL if any(GRAPH[n]["sr"] == 0 for _, n in p["walk"])]
     noref = [p for p in POOL if not any(GRAPH[n]["sr"] == 0 for _, n in p["walk"])]
